@@ -70,9 +70,38 @@ class Real:
                 f.write(self.contents.by_tok[tok])
         return p
 
+    def stage(self, tok):
+        """a staging file of the caller holding the content: handed to one call, reused (rewritten in place) afterwards"""
+        self._nstage = getattr(self, "_nstage", 0) + 1
+        p = os.path.join(self.inputs, "stage%d-c%d" % (self._nstage, tok))
+        with open(p, "wb") as f:
+            f.write(self.contents.by_tok[tok])
+        self._staged = getattr(self, "_staged", []) + [p]
+        return p
+
+    def reuse_staging(self):
+        """what callers do with a staging file once the call has returned: write something else into it"""
+        for p in getattr(self, "_staged", []):
+            try:
+                with open(p, "r+b") as f:
+                    f.write(b"\x00the caller has reused this staging file\n")
+                    f.truncate()
+            except OSError:
+                pass
+        self._staged = []
+
     def py_data(self, d):
         self.last_stream = None
         if d[0] == "bad":
+            if isinstance(d[1], (tuple, list)) and d[1] and d[1][0] == "stream":
+                # streams that are not buffered binary ones: text mode, unbuffered (raw), in-memory text
+                p = os.path.join(self.inputs, "not-binary-buffered")
+                with open(p, "wb") as f:
+                    f.write(b"content handed over through the wrong kind of stream\n")
+                s_ = {"text": lambda: open(p, "r"), "raw": lambda: open(p, "rb", buffering=0),
+                      "stringio": lambda: io.StringIO("in-memory text")}[d[1][1]]()
+                self.open_streams.append(s_)
+                return s_
             return d[1]
         if d[0] == "blank":
             return d[1]
@@ -81,9 +110,9 @@ class Real:
             return p if d[1] == "str" else Path(p)
         _, tok, kind, off = d
         if kind == "str":
-            return self.input_path(tok)
+            return self.stage(tok)
         if kind == "Path":
-            return Path(self.input_path(tok))
+            return Path(self.stage(tok))
         data = self.contents.by_tok[tok]
         off = min(off, len(data))
         if kind == "file":
@@ -115,6 +144,8 @@ class Real:
             v = self._invoke(call)
         except Exception as e:  # noqa
             return "err " + exc_name(e)
+        finally:
+            self.reuse_staging()
         return "ok " + v
 
     def _invoke(self, call):
